@@ -23,14 +23,20 @@ size_t xv_ap_q;         /* arbitrary character position (never assigned) */
 #define AP_STR_MAX 300
 #define AP_END (AP_STR_MAX - 1)
 #define AP_BASE_FRESH (__CPROVER_is_fresh(xv_ap_base, AP_STR_MAX))
+#ifdef XV_AP_EXP1
+#define AP_BASE_STR (xv_ap_len <= AP_END && xv_ap_base[AP_END] == 0)
+#else
 #define AP_BASE_STR (xv_ap_len <= AP_END && xv_ap_base[AP_END] == 0 && \
                      __CPROVER_forall { size_t q_; (q_ < AP_END) ==> (q_ >= AP_END - xv_ap_len ==> xv_ap_base[q_] != 0) })
+#endif
 #define AP_START (xv_ap_base + (AP_END - xv_ap_len))
 #define AP_OFF(p) ((size_t)__CPROVER_POINTER_OFFSET(p))
 #define AP_REM(p) (AP_END - AP_OFF(p))     /* strlen(p) for p inside the string */
 /* p points at a character (or the NUL) of a string that passed the length gate */
-#define AP_INSIDE(p) (xv_ap_len <= ATTR_PATH_NAME_MAX && __CPROVER_same_object((p), xv_ap_base) && \
-                      AP_OFF(p) >= AP_END - xv_ap_len && AP_OFF(p) <= AP_END)
+/* (pointer_in_range_dfcc, not same_object: symex resolves dereferences through value sets, an assumed same_object on a
+ * nondeterministic pointer would leave its pointee unconstrained) */
+#define AP_INSIDE(p) (xv_ap_len <= ATTR_PATH_NAME_MAX && __CPROVER_pointer_in_range_dfcc(xv_ap_base, (p), xv_ap_base + AP_END) && \
+                      AP_OFF(p) >= AP_END - xv_ap_len)
 #define AP_SPECIAL(c) ((c) == ATTR_PATH_INDEX_START || (c) == ATTR_PATH_INDEX_END || (c) == ATTR_PATH_KEY_DELIM)
 #define AP_KEYCHAR(c) ((c) != 0 && !AP_SPECIAL(c))
 #define AP_DIGIT(c) ((c) >= '0' && (c) <= '9')
